@@ -179,7 +179,12 @@ package fsnotify
 //@   ensures modeA && didLock(shared.mu) && err == nil ==> Watched(w, filepath.Clean(path))         [C04 C01] "a successful Add leaves the file watched: listed under the cleaned argument, or already watched under the name it was first added as"
 //@   atcall inotify.register: arg_flags == requestInotify(with.op, with.noFollow)                   [C01 C15] "the native flags requested are exactly those needed for the requested operations"
 //@   atcall inotify.register: modeA ==> arg_path == p && !arg_recurse                               [C04 C08] "the watch is registered under the cleaned Add argument"
+//@   atcall inotify.register: modeB ==> arg_recurse == incallback() && arg_flags == requestInotify(with.op, with.noFollow)     [C19] "every directory found by the walk of a recursive Add gets a recursive watch with the requested flags; a plain Add gets a plain one"
+//@   callback filepath.WalkDir: held(shared.mu) && !held(inotify.cookiesMu) && Wf(w) && TablesInv(w.watches) && KInv(w.watches) && token(sawOpen)     [C19 C07] "every directory of the walk is registered under the same lock, and the tables stay consistent from one to the next"
 //@   atcall filepath.WalkDir: modeB ==> held(shared.mu)                                             [C07 C19] "a recursive Add registers its whole tree inside one critical section, so that it is atomic towards Remove and the reader"
+//@   let isRec = enableRecurse && filepath.Base(filepath.Clean(path)) == "..."
+//@   let root0 = filepath.Dir(filepath.Clean(path))
+//@   atcall filepath.WalkDir: modeB ==> isRec && arg_root == root0                                   [C19] "the walk is made exactly for an argument ending in /..., from the directory in front of it"
 
 // request side of the flag table (C15), transcribed from the Watcher documentation and inotify(7)
 //@ def requestInotify(op Op, noFollow bool) := ite(noFollow, uint32(unix.IN_DONT_FOLLOW), 0) |
